@@ -67,7 +67,7 @@ PROPS = {
         design_ref="DESIGN.md 5/C08",
         module="Bita.Props.C08",
         level="proof",
-        required_theorems=["http_resume", "http_items_exact_prefix", "fetchRun_requests", "io_reader_sound", "io_reader_complete", "read_at_exact", "http_read_at_requests"],
+        required_theorems=["http_resume", "http_items_exact_prefix", "fetchRun_requests", "io_reader_sound", "io_reader_complete", "read_at_exact", "http_read_at_requests", "http_surplus_irrelevant"],
         suites=dict(quick=[("l1", "c08-http"), ("l1", "c08-io")], thorough=[("l1", "c08-http"), ("l1", "c08-io")]),
         rule="HTTP: one run of two chunks with every cut offset x budgets x one/two cuts x cut/clean-end (exhaustive) plus "
              "random chunk lists, budgets 0..3 and random scripts of refuse/cut/early-end/full; local: random range lists "
@@ -365,7 +365,7 @@ PROPS = {
         module="Bita.Props.C15",
         level="proof",
         needs_bita=True,
-        required_theorems=["tryInit_total", "accepted_archive_is_safe", "scan_is_bounded", "accepted_iff_valid", "accepted_archive_scan_is_bounded", "server_bytes_safe", "remote_open_total", "local_open_total", "local_header_read_allocation_bounded", "remote_header_read_buffering_bounded", "decoded_chunk_follows_declared_sizes"],
+        required_theorems=["tryInit_total", "accepted_archive_is_safe", "scan_is_bounded", "accepted_iff_valid", "accepted_archive_scan_is_bounded", "server_bytes_safe", "remote_open_total", "local_open_total", "local_header_read_allocation_bounded", "remote_header_read_buffering_bounded", "decoded_chunk_follows_declared_sizes", "accepted_archive_ranges_fit_u64", "remote_reader_sums_are_chunk_ends"],
         suites=dict(quick=[("l1", "fmt"), ("py", "c15_cli"), ("l1", "c08-http")], thorough=[("l1", "fmt"), ("py", "c15_cli"), ("l1", "c08-http")]),
         rule="library: random/wild dictionaries under header::build, wire-level crafted dictionaries and declared-size/offset lies under a "
              "recomputed checksum, bit flips, truncations, random bytes; CLI: 22 field mutations x 4 commands + 13 server scripts; "
